@@ -21,6 +21,7 @@ type c07Step struct {
 	C    int      `json:"c"`
 	Mode string   `json:"mode,omitempty"`
 	Call sim.Call `json:"call,omitempty"`
+	Tx   *sim.Tx  `json:"tx,omitempty"` // K = "tx": a committed transaction of the user (C08 scenarios)
 }
 
 type c07Scenario struct {
